@@ -106,6 +106,9 @@ func main() {
 				os.Exit(7)
 			}
 		}
+	case "cold":
+		out.WriteString(c18cold(os.Args[2:]))
+		out.WriteByte('\n')
 	default:
 		fmt.Fprintln(os.Stderr, "unknown mode", os.Args[1])
 		os.Exit(2)
